@@ -896,7 +896,7 @@ def correspond(ctx):
       trusted_base=['correspondence harness corr_C05.py (sampled inputs, float64)',
                     'full pipeline.step equivariance / permutation / component independence are OBSERVED on the '
                     'implementation, not proved; proved: kinematics equivariance and the two scan-level theorems',
-                    'scan.tree modelled as the recursion it implements (Layer B stage 1; exact tie in the C01 check)',
+                    'scan.tree: level-grouped code transcribed and proved equal to the recursion (Layer B stage 2, Props/C01.scanTree_levels_eq_recursion); transcription tied exhaustively in the C01 check',
                     'mujoco XML compiler, mjcf.load_model array extraction, jax.jit / lax.scan'],
       assumptions=['IEEE round-off not modelled; theorems over the reals',
                    'generalized pipeline run with matrix_inv_iterations = 0 (exact inverse) as the property states'],
